@@ -439,7 +439,7 @@ def run_fuzz(prop, target, seeds, budget_s, jobs, tier, max_len, res, cov, props
         fz = B.build('fuzz', (target,))
         rp = B.build('asan', ('replay',), quiet=True)
     except RuntimeError as e:
-        res.cov.setdefault('inconclusive', []).append('fuzz build failed: ' + str(e)[-300:])
+        res.broken = (res.broken or '') + ' fuzz target %s does not build: %s' % (target, str(e)[-400:].replace('\n', ' '))
         return
     root = os.path.join(WORK, 'fuzz-%s-%d' % (target, os.getpid()))
     shutil.rmtree(root, ignore_errors=True)
